@@ -9,7 +9,7 @@ LEVEL = "proof"
 
 def components():
     return [T.IntStore(), T.Dec64Store(), T.Dec64Next(), T.BoolStore(), T.ValCmp(), T.ValSort(), T.RangeCheck(),
-            T2.EnumStore(), T2.BitsStore(), T2.BinStore(), T2.StrLenStore(), T2.UnionStore(), T2.Cmp2(), T2.Sort2(), T2.Ip4PrefixHost()]
+            T2.EnumStore(), T2.BitsStore(), T2.BinStore(), T2.StrLenStore(), T2.UnionStore(), T2.Cmp2(), T2.Sort2(), T2.Ip4PrefixHost(), T2.IidCanon()]
 
 
 def oracles_():
@@ -43,7 +43,14 @@ MANIFEST = {
             "every prefix length, date-and-time, hex-string, phys-address, mac-address, uuid) and identityref are checked by the "
             "DerivedRfc oracle (search) against a Python reference written from RFC 6991, RFC 5952 and RFC 3339: canonical "
             "string, idempotence, equality and duplicate detection modulo canonical form, insertion-order independence; the "
-            "host-bit masking of ipv4-prefix has a value-level Coq model (C03_ipv4_prefix_*, T2 t2-ip4p).",
+            "host-bit masking of ipv4-prefix has a value-level Coq model (C03_ipv4_prefix_*, T2 t2-ip4p). The canonical string of "
+            "instance-identifier / node-instance-identifier has the model IidCanon.v on top of PathQuote.v (module printed "
+            "where it changes, key / leaf-list / position predicates, quote chosen per value): C03_iid_parse_print, "
+            "C03_iid_canon_idempotent, C03_iid_eq_iff_canon for every path whose values hold one quote kind, "
+            "C03_iid_hoisted_quote_refuted as regression of the shared-quote variant; T2 t2-iid against lyd_new_term. For "
+            "unions whose members' canonical forms are separated (in particular: only the first member is an integer type) "
+            "the canonical string is stored as the same value and equality iff equal canonical strings holds "
+            "(C03_union_canon_idempotent_separated, C03_union_eq_iff_canon_separated, C03_union_separated_ints_first).",
     "note": "Modelled C: ly_parse_int/uint (strtoll model), lyplg_type_parse_dec64, decimal64 printing, lyplg_type_validate_range, "
             "boolean store; lyplg_type_store_enum/sort_enum, bits_str2bitmap/bitmap2items/items2canon/compare/sort, "
             "binary_base64_newlines/validate/decode/encode + store/compare/sort, ly_utf8len + string length check (UTF-8 "
